@@ -228,6 +228,32 @@ theorem content_bound (ts : List Token) (h : ∀ t ∈ ts, t.contentOk C) :
     (∀ u ∈ (gatherAll C g cap Tree.empty ts).unc, u.contentOk C) :=
   gatherAll_contentOk Tree.empty ts (by simp [Tree.empty]) (by simp [Tree.empty]) h
 
+/-- Content binding WITHOUT any hypothesis on the offered objects: whatever the offered Token objects carry in
+    their `content` field (a relay may have put anything there — the field is covered by neither hash nor signature),
+    every stored or waiting token either carries no / bound content, or is literally one of the offered objects,
+    content included.  So the tree itself never attaches content that does not hash to the pointer: content that
+    reaches a stored token through a later duplicate has passed `receive_content`. -/
+theorem content_attach_checked (ts : List Token) :
+    (∀ e ∈ (gatherAll C g cap Tree.empty ts).els, e.contentOk C ∨ e ∈ ts) ∧
+    (∀ u ∈ (gatherAll C g cap Tree.empty ts).unc, u.contentOk C ∨ u ∈ ts) := by
+  apply gatherAll_pred (fun x => x.contentOk C ∨ x ∈ ts)
+  · intro t x hx
+    rcases absorbOne_same_or_bound (C := C) t x with h | h
+    · rw [h]; exact hx
+    · exact Or.inl h
+  · simp [Tree.empty]
+  · simp [Tree.empty]
+  · exact fun t ht => Or.inr ht
+
+/-- … in particular a token that arrived bare (all offered copies of it without content, or with bound content) can
+    only ever hold bound content, however many duplicates with foreign content are offered later or earlier -/
+theorem content_of_bare_arrival_bound (ts : List Token) (e : Token)
+    (he : e ∈ (gatherAll C g cap Tree.empty ts).els) (c : Bytes) (hc : e.content = some c)
+    (hbad : ∀ o ∈ ts, o.core = e.core → o.content = some c → C.hash c = e.chash) : C.hash c = e.chash := by
+  rcases (content_attach_checked (C := C) (g := g) (cap := cap) ts).1 e he with h | h
+  · exact h c hc
+  · exact hbad e h rfl hc
+
 /-! ### verify / get_root_path -/
 
 /-- `verify` says True only for a token that is signed by the tree key and linked to genesis through stored
@@ -484,6 +510,12 @@ def tX : Token := ⟨[5], [60], [7], none⟩
 example : [View.fresh [7] 100, View.fresh [5] 100][1]? = some (View.fresh [5] 100) := rfl
 example : toyK.vfyK [7] tX.plain tX.sig = true ∧ toyK.vfyK [5] tX.plain tX.sig = false := by decide
 example : offeredTo 1 [(0, tX), (1, tX)] = [tX] := by decide
+/-- a duplicate of the stored bare token A that carries foreign content [66] is not taken over; the real content is -/
+def tAbad : Token := { tA with content := some [66] }
+def tAgood : Token := { tA with content := some [10] }
+example : (gatherAll toy [0] 100 Tree.empty [tA, tAbad, tAgood]).els = [tAgood] := by
+  simp [gatherAll, gather, drain, Tree.empty, toy, tA, tAbad, tAgood, Token.valid, Token.id, Token.signed, hasId,
+    absorb, Token.receiveContent, kidsOf, othersOf]
 example : verify toy [0] ⟨[tA, tB, tC], []⟩ tC 1000 = true := by decide
 example : rootPath toy [0] ⟨[tA, tB, tC], []⟩ tC 2 = [tC, tA] := by decide
 example : verify toy [0] ⟨[tA, tB, tC], []⟩ tC 1 = false := by decide
